@@ -26,19 +26,24 @@ pub enum ColumnStyle {
 /// This relies on being able to split the line on COLUMN_SEPARATOR, as is the
 /// case after detokenization or disassembly. 
 pub fn format_tokens(line: &str, style: &ColumnStyle, widths: [usize;3]) -> String {
-	let cols = line.split(super::COLUMN_SEPARATOR);
+	let cols: Vec<&str> = line.split(super::COLUMN_SEPARATOR).collect();
+	let last_col = cols.len() - 1;
 	let mut ans = String::new();
 	let mut col_idx = 0;
+	// length of the line up to the end of its last column: blanks beyond it are padding, blanks before it belong to the column
+	let mut content_len = 0;
     match style {
         ColumnStyle::Pasteable => {
             for col in cols {
                 ans += col;
+                content_len = ans.len();
                 ans += " ";
             }
         },
         ColumnStyle::Tabs => {
             for col in cols {
                 ans += col;
+                content_len = ans.len();
                 ans += "\t";
             }
         },
@@ -62,12 +67,17 @@ pub fn format_tokens(line: &str, style: &ColumnStyle, widths: [usize;3]) -> Stri
                 };
                 ans += &" ".repeat(prepadding);
                 ans += col;
+                // an empty column that ends the line is kept by the blanks in front of it
+                if col.len()>0 || col_idx==last_col {
+                    content_len = ans.len();
+                }
                 ans += &" ".repeat(padding);
                 col_idx += 1;
             }
         }
     }
-    ans.trim_end().to_string()
+    ans.truncate(content_len);
+    ans
 }
 
 pub fn format_for_paste(program: String, tokenizer: &mut super::tokenizer::Tokenizer) -> Result<String,DYNERR> {
